@@ -27,7 +27,16 @@ func init() {
 		More: []rt.Extra{{Module: "MC_C10", ExtraCfg: tierCfg, Keep: func(u *rt.Unit) bool {
 			k := u.Str("kind")
 			return twoDocs(u) && (k == "int" || k == "int2" || k == "num" || k == "nummult")
-		}}},
+		}},
+			// integer bounds next to zero generated with --min-sized-ints (unsigned fields): the bounds must be
+			// enforced exactly whatever type carries the value
+			{Module: "MC_C15", ExtraCfg: tierCfg, Frac: frac(0.35, 1), Keep: func(u *rt.Unit) bool {
+				if !u.Opts().MinSizedInts {
+					return false
+				}
+				leaf := fmt.Sprint(u.Raw["schema"])
+				return containsStr(leaf, "minimum:map[e:0") || containsStr(leaf, "exclusiveMinimum:map[h:map[e:0")
+			}}},
 		Unbounded: []rt.ApaCheck{
 			{Module: "BoundsInd", Inv: "Agree", Expect: "NoError", What: "for ALL integers: the transcribed NormalizeBounds + genBoundary accept x iff x satisfies every stated bound"},
 			{Module: "BoundsInd", Inv: "AgreeTie", Expect: "Error", What: "the comparison before fix ee8f4ce (> / < instead of >= / <=) disagrees on a tie: the deviation switch is necessary"},
